@@ -10,7 +10,7 @@ from common import *
 import gen, pipeline, model, impl, shex_text, findings as F
 import fake_endpoint as FE
 from props import base
-from props.c09 import evidence, chosen, has_tie
+from props.c09 import evidence, chosen, has_tie, tie_explained
 from shexer import consts as C
 
 PROPS_MODULES = ["ShexerModel.Props.C15"]
@@ -33,6 +33,12 @@ def gen_c15_graph(rng):
 
 
 def compare_shapes(ref, got, cfg):
+    l0 = sorted((sh['label'], sh['n']) for sh in ref['shapes'])
+    l1 = sorted((sh['label'], sh['n']) for sh in got['shapes'])
+    if l0 != l1:
+        return "shapes differ (label, instances): %s vs %s" % (l0[:6], l1[:6])
+    if len({l for l, _ in l0}) != len(l0):
+        return None       # duplicate labels (F-C05-1): the per-label comparison below has no meaning
     ev0, ch0 = evidence(ref), chosen(ref)
     ev, ch = evidence(got), chosen(got)
     hdr0 = {lab: v[0] for lab, v in ev0.items()}
@@ -51,7 +57,7 @@ def compare_shapes(ref, got, cfg):
                 return "figure of %s %s differs: %s vs %s" % (lab, k[:4], f0[k[:4]], k[4])
     if not (has_tie(ref) or has_tie(got)):
         if {l: v[1] for l, v in ev.items()} != {l: v[1] for l, v in ev0.items()}:
-            return "sets of printed facts (constraints and comments) differ"
+            return None if tie_explained(ev0, ev) else "sets of printed facts (constraints and comments) differ"
         if ch != ch0:
             return "chosen constraints differ"
     return None
@@ -70,6 +76,11 @@ def run(ctx):
         g = gen_c15_graph(rng)
         if not g:
             continue
+        if rng.random() < 0.15:
+            # two classes with the same local name in different namespaces
+            ren = lambda t: ('I', 'http://other.org/ns#C0') if t == ('I', EX + 'C1') else t
+            g = [(s_, p_, ren(o_)) if p_ == RDF_TYPE else (s_, p_, o_) for s_, p_, o_ in g]
+            stats["same_local_name"] = stats.get("same_local_name", 0) + 1
         cfg = gen.gen_cfg(rng, g, presentation=False, allow_cap=False, allow_ignore=False)
         cfg['report'] = 'mixed'
         cfg['disable_comments'] = False
@@ -117,6 +128,44 @@ def run(ctx):
                     res[cache_off] = (shex_text.parse(text), text, len(fe.queries))
                 except Exception as e:
                     res[cache_off] = ('exc', "%s %s" % (type(e).__name__, str(e)[:120]), len(fe.queries))
+        # the model's request list vs the implementation's query log (class targets / all classes, no cap)
+        if ctx.driver_ok and tmode in ('classes', 'all') and cap is None and res[False][0] != 'exc' and res[True][0] != 'exc':
+            import re as _re
+            def parse_log(qs):
+                out = []
+                for q in qs:
+                    m = _re.match(r'^SELECT \?p \?o WHERE \{ <(.*)> \?p \?o \.\} $', q)
+                    if m: out.append(('po', m.group(1))); continue
+                    m = _re.match(r'^SELECT \?s \?p WHERE \{ \?s \?p <(.*)> \.\}$', q)
+                    if m: out.append(('sp', m.group(1))); continue
+                    m = _re.match(r'^SELECT \?o WHERE \{ <(.*)> <.*> \?o \. \}$', q)
+                    if m: out.append(('classes', m.group(1))); continue
+                    out.append(('selector', q))
+                return out
+            logs = {}
+            for cache_off in (False, True):
+                with FE.serving(nt) as fe:
+                    Shaper(url_endpoint=FE.URL, disable_endpoint_cache=cache_off, **kw).shex_graph(string_output=True, acceptance_threshold=th)
+                    logs[cache_off] = parse_log(fe.queries)
+            sel = [q for q in logs[False] if q[0] == 'selector']
+            classes = sorted(gen.classes_of(g)) if tmode == 'all' else cfg['targets']
+            targets = []
+            for cl in (classes if tmode == 'classes' else None) or []:
+                pass
+            # target nodes in the order the implementation selected them: the subjects of its first po queries
+            po_nodes = [q[1] for q in logs[False] if q[0] == 'po']
+            lines = model.case_lines(g, cfg, 'endpoint', "e%d" % i)[:-1] + ["NT\t" + nnode for nnode in po_nodes] + ["RUN\tendpoint\te%d" % i]
+            mres = model.run_driver(lines).get("e%d" % i, [])
+            # default Shaper: track_classes_for_entities_at_last_depth_level=False, i.e. the model's requests without the `classes` ones
+            mreq = sorted(tuple(l.split("\t")[1:]) for l in mres if l.startswith("REQ") and l.split("\t")[1] != 'classes')
+            mq = next((int(l.split("\t")[1]) for l in mres if l.startswith("QUERIESPOSP")), None)
+            ireq_on = sorted(q for q in logs[False] if q[0] != 'selector')
+            ireq_off = sorted(q for q in logs[True] if q[0] != 'selector')
+            stats["request_logs_compared"] = stats.get("request_logs_compared", 0) + 1
+            if ireq_on != mreq or ireq_off != sorted(mreq + mreq) or mq != len(mreq):
+                dis.append({"what": "Endpoint model vs query log", "only_model": [x for x in mreq if x not in ireq_on][:8], "only_impl": [x for x in ireq_on if x not in mreq][:8],
+                            "selector_like": [q[1][:120] for q in logs[False] if q[0] == 'selector'][:6],
+                            "impl_cache_off_count": len(ireq_off), "model_queries_two_passes": mq, **rec})
         for cache_off, r in res.items():
             mode = "cache off" if cache_off else "cache on"
             if r[0] == 'exc':
@@ -131,6 +180,12 @@ def run(ctx):
             if why:
                 obs = {"kind": "endpoint", "why": why, "inverse": cfg['inverse'], "targets": tmode, "cap": cap, "triples": g, "cfg": cfg}
                 fid = F.match(kf, obs)
+                if not fid and why.startswith("constraint keys"):
+                    k0 = {sh['label']: set(base.shape_keys(sh, cfg)) for sh in ref['shapes']}
+                    k1 = {sh['label']: set(base.shape_keys(sh, cfg)) for sh in r[0]['shapes']}
+                    diff = [k for l in k0 for k in k0[l] ^ k1.get(l, set())]
+                    expected = kw['shape_map_raw'].count("@") if tmode == 'shapemap' else len(gen.classes_of(g) if tmode == 'all' else cfg['targets'])
+                    fid = F.match(kf, {"kind": "order_dependent_keys", "cfg": cfg, "keys": diff, "a_shape_was_removed": len(ref['shapes']) < expected})
                 if fid:
                     hit.add(fid)
                 else:
